@@ -436,12 +436,13 @@ def kernel_functions(ctx, repo):
         allocs = {}
         for st in ast.walk(fd):
             if isinstance(st, ast.Assign) and len(st.targets) == 1 and isinstance(st.targets[0], ast.Name) and isinstance(st.value, ast.Call):
-                allocs[st.targets[0].id] = st.value
+                allocs.setdefault(st.targets[0].id, []).append(st)
         IDENTITY = {"add": ("zeros", "zeros_like"), "logical_or": ("zeros", "zeros_like"), "multiply": ("ones", "ones_like"), "logical_and": ("ones", "ones_like")}
         for c in ast.walk(fd):
             if isinstance(c, ast.Call) and isinstance(c.func, ast.Attribute) and c.func.attr == "at" and isinstance(c.func.value, ast.Attribute) and c.args and isinstance(c.args[0], ast.Name):
                 uf = c.func.value.attr
-                al = allocs.get(c.args[0].id)
+                prev = [st for st in allocs.get(c.args[0].id, []) if st.lineno < c.lineno]
+                al = max(prev, key=lambda st: st.lineno).value if prev else None
                 alname = ast.unparse(al.func).split(".")[-1] if al is not None else None
                 if uf in IDENTITY:
                     good = alname in IDENTITY[uf]
